@@ -452,7 +452,7 @@ fn history_case(front: Front, reg: Reg, rng: &mut Prng, col: &mut Collector) {
             continue;
         }
         // ---- (2) restored twin(s) run the rest of the history -----------------------------------------
-        let variants: &[&str] = if front == Front::Nb { &["fresh", "in-place", "in-place-after-other-session"] } else { &["fresh"] };
+        let variants: &[&str] = if front == Front::Nb { &["fresh", "in-place", "in-place-after-other-session", "in-place-after-unanswered-join"] } else { &["fresh"] };
         for variant in variants {
             let mut rb = Prng::new(seed);
             let mut b: Dev = if *variant == "fresh" {
@@ -482,6 +482,19 @@ fn history_case(front: Front, reg: Reg, rng: &mut Prng, col: &mut Collector) {
                     continue;
                 }
                 col.event("restored_over_another_session");
+                b2
+            } else if *variant == "in-place-after-unanswered-join" {
+                // a device object whose last act was a join attempt nobody answered: the persisted session
+                // is installed in it all the same
+                let opts = DevOpts { rng_seed: Some(seed), ..Default::default() };
+                let creds = default_creds(&mut rb);
+                let mut b2: Dev = Dev::new(front, reg, creds, &opts);
+                let _ = b2.transact(Action::Join, &Script::silent());
+                if b2.set_session_json(&jv).is_err() {
+                    continue;
+                }
+                b2.set_datarate(dr);
+                col.event("restored_after_an_unanswered_join");
                 b2
             } else {
                 // a second original brought to the same point, then the session replaced in place
